@@ -93,6 +93,12 @@ def register(reg):
                              f"{f} * (len(yielded[2]) // {f}) == len(yielded[2]) and "
                              f"forall(i, 0, len(yielded[2]) // {f}, {body}))", "P"))
     c.end = [("coverage", "goff + S == N", "P")]
+    # plan arithmetic, established once where the values are computed (the later obligations then need no
+    # non-linear reasoning): with (N - G) == q*(G - S) + r, 0 <= r < G - S:  nreads == q + 1 and lastread == r + S
+    c.after_assign["nreads"] = [("at least one full block", "nreads >= 1 and nreads * (gulp - skipback) + skipback <= nsamps")]
+    c.after_assign["lastread"] = [("remainder of the plan",
+                                   "(skipback <= lastread and lastread < gulp and nreads * (gulp - skipback) + lastread == nsamps) or "
+                                   "(lastread == 0 and nreads * (gulp - skipback) + skipback == nsamps)")]
     # helper clauses (H) the streaming consumers of base.py lean on (they index their output by ii*gulp)
     c.yields.append(("H:offset", "goff == _nyield * (G - S)", "H"))
     c.yields.append(("H:gulp", "implies(_nyield >= 1, G == old(gulp))", "H"))
